@@ -104,7 +104,19 @@ class G:
 
     # ---- helpers
     def lab(self):
+        """a fresh statement label of 1 to 5 digits (the width matters to the printer: it is padded against the
+        indentation of the statement)"""
         self.label += 10
+        used = self.__dict__.setdefault("used_labels", {999})
+        w = self.rng.choice([1, 2, 2, 3, 3, 3, 4, 4, 5])
+        for _ in range(20):
+            v = self.rng.randrange(10 ** (w - 1), 10 ** w) if w > 1 else self.rng.randrange(1, 10)
+            if v not in used:
+                used.add(v)
+                return v
+        while self.label in used:
+            self.label += 10
+        used.add(self.label)
         return self.label
 
     def cname(self):
